@@ -33,7 +33,8 @@ LEVEL = 'exploration'
 
 UNIVERSE = ['a.txt', 'A.TXT', 'mat.txt', 'materials/x.vmt', 'materials/sub/y.vtf', 'materials2/z.vmt',
             'Models/m.mdl', 'x', '.hid/k.txt', 'Stra\u00dfe/\u0391\u03a3.txt',
-            'materials.txt', 'materials-old/q.vmt']      # these sort between 'materials' and 'materials/'
+            'materials.txt', 'materials-old/q.vmt',      # these sort between 'materials' and 'materials/'
+            'f' * 64 + '/' + 'n' * 70 + '.' + 'e' * 64]     # name parts of 64+ characters
 ABSENT = ['nope.txt', 'materials', 'materials/sub', 'materials/x', 'mat', 'x.vmt', 'hid/k.txt', 'k.txt', '.a.txt']     # never files
 BACKENDS = ['virtual', 'zip', 'vpk', 'raw']
 SET_BACKENDS = BACKENDS + ['raw_free']       # RawFileSystem(path, constrain_path=False): file-set battery only
@@ -319,8 +320,14 @@ def backend_battery(acc: core.Acc, names: list, workdir: str, only: dict | None 
         if b == 'vpk' and not all(vpk_representable(n) for n, _ in files):
             acc.count('skipped_vpk_unrepresentable')
             continue
-        path = materialise(os.path.join(workdir, b), b, files)
-        systems[b] = open_fs(b, path, files)
+        try:
+            path = materialise(os.path.join(workdir, b), b, files)
+            systems[b] = open_fs(b, path, files)
+        except Exception as exc:  # noqa: BLE001 - a file set the backend can represent, written by the backend's own writer
+            acc.evaluations += 1
+            acc.fail('backend_open_raises', {'part': 'backend', 'names': names, 'backend': b, 'op': 'open', 'base': ''},
+                     f'file set {names}: building / opening the {b} backend raised {type(exc).__name__}: {str(exc)[:300]}', backend=b, op='open', cause='open')
+            continue
         if b in ('zip', 'vpk', 'raw') and (not only or only['op'] == 'factory'):
             # the factory function picks the same class, and iterating a file system lists what walking its root lists
             acc.evaluations += 1
@@ -572,6 +579,7 @@ def chain_battery(acc: core.Acc, members: list, only: dict | None = None) -> Non
                 acc.fail('chain_order', chain_case(members, op='order', flags=list(flags)),
                          f'add_sys in order {desc} with priority flags {flags}: systems is {ch.systems}', via='add_sys')
     chain = build_chain(members)
+    nested_chain = [None]
     # ---- lookups
     for base in CHAIN_QUERIES:
         if only and (only['op'] not in LOOKUP_OPS or only['base'] != base):
@@ -594,6 +602,19 @@ def chain_battery(acc: core.Acc, members: list, only: dict | None = None) -> Non
             if not determinate:
                 acc.count('chain_lookup_skipped_case_indeterminate')
                 continue
+            if k <= 2:
+                # the same members each wrapped in a chain of their own (a chain is a file system and may be a member):
+                # the outer chain answers exactly like the flat one
+                if nested_chain[0] is None:
+                    nested_chain[0] = FileSystemChain(*[FileSystemChain((m.fs, m.prefix)) if m.prefix else FileSystemChain(m.fs) for m in members])
+                for op in LOOKUP_OPS:
+                    obs_n = observe_lookup(nested_chain[0], op, q)
+                    acc.evaluations += 1
+                    if not judge_lookup(obs_n, want)[0] and judge_lookup(observe_lookup(chain, op, q), want)[0]:
+                        acc.fail('chain_nested_differs', chain_case(members, op=op, base=base, q=q),
+                                 f'chain {desc}: the flat chain answers {op}({q!r}) correctly, the same members each wrapped in their own '
+                                 f'chain give {obs_n}', op=op, cause='nested_chain')
+                        break
             for op in LOOKUP_OPS:
                 if only and only['op'] != op:
                     continue
